@@ -190,12 +190,28 @@ namespace c9
         emit_num_or_fail(out, bz);
     }
 
+    // shape of any array / view as a vector; a view whose dimension is decided at run time (e.g. run-time keepdims)
+    // reports its shape as an either of two index arrays
+    template <typename shape_t>
+    vec_t shape_to_vec(const shape_t& shape)
+    {
+        if constexpr (meta::is_either_v<shape_t>) {
+            using left_t = meta::get_either_left_t<shape_t>;
+            using right_t = meta::get_either_right_t<shape_t>;
+            if (auto p = nm::get_if<left_t>(&shape)) return shape_to_vec(*p);
+            if (auto q = nm::get_if<right_t>(&shape)) return shape_to_vec(*q);
+            return vec_t{};
+        } else {
+            return vh::to_vec(shape);
+        }
+    }
+
     template <typename T>
     void emit_array_runtime(Out& out, const T& a)
     {
         const auto shape = nm::shape(a);
         out.tok("RS");
-        out.vec(vh::to_vec(shape));
+        out.vec(shape_to_vec(shape));
         out.tok("RD");
         out.i((long long)nm::dim(a));
         out.tok("RZ");
@@ -281,7 +297,7 @@ namespace c9
         } else {
             using elem_t = meta::get_element_type_t<array_t>;
             const auto shape = nm::shape(a);
-            auto sv = vh::to_vec(shape);
+            auto sv = shape_to_vec(shape);
             out.tok("A");
             out.tok(vh::type_tag<elem_t>());
             out.vec(sv);
@@ -300,6 +316,24 @@ namespace c9
                 }
             }
         }
+    }
+    // hook counters of one phase of a generated instance (then reset):  <tag> <clamp violations> <value> <bound> <capacity violations> <value> <bound>
+    // phases: HK0 = operands / arguments built, HK1 = library call (view built and read), HK2 = evaluation
+    inline void emit_hook_phase(Out& out, const char* tag)
+    {
+        out.tok(tag);
+#ifdef NMTOOLS_VERIF
+        const int sites[2] = {nm::verif::CLAMP, nm::verif::SVEC_CAPACITY};
+        for (int s : sites) {
+            out.u(nm::verif::state.violations[s]);
+            out.i(nm::verif::state.first[s][0]);
+            out.i(nm::verif::state.first[s][1]);
+            out.u(nm::verif::state.events[s]);
+        }
+        nm::verif::reset();
+#else
+        out.tok("0 0 0 0 0 0 0 0");
+#endif
     }
 } // namespace c9
 
